@@ -267,3 +267,43 @@ int main(void){
   return 0;
 }
 #endif
+/* ------------------------------------------------------------------------------------------------------------------------------------
+ * MODE 7: ell(A,m) (Al-Mohy & Higham 2009, eq. (3.10) / SciPy _ell): p = 2m+1, est = ||  |A|^p  ||_1 (estimated), alpha = est / (||A||_1 * c) with
+ * 1/|c_{2m+1}| = C(2p,p) (2p+1)!, result = max( ceil( log2(alpha/u) / (2m) ), 0 ) with u = 2^-53, and 0 when est == 0.  Callees logged: gsl_sf_choose, gsl_sf_fact,
+ * pow, one_normest_matrix_power (argument: entry-wise absolute value of A, N x N, N=2), exact_1_norm, log2 (of one argument), ceil-to-int.  MM = m (job parameter). */
+#if MODE==7
+#define N 2
+static R g_ch, g_fa, g_p53, g_est, g_nrm, g_l2arg, g_l2val, g_ceilarg; static int g_ceilval, n_ch, n_fa, n_pw, n_est, n_nrm, n_l2, n_ceil, abs_ok, ch_ok, fa_ok, pw_ok, est_ok, nrm_ok;
+static const gsl_matrix_complex* g_A; static R g_absin[2*N*N];
+static R gsl_sf_choose(unsigned n, unsigned k){ n_ch++; ch_ok = (n==2*(2*MM+1) && k==2*MM+1); return g_ch; }
+static R gsl_sf_fact(unsigned n){ n_fa++; fa_ok = (n==2*(2*MM+1)+1); return g_fa; }
+static R sq_pow(R b, R x){ n_pw++; pw_ok = (b==2.0 && x==-53.0); return g_p53; }
+static R gsl_complex_abs(gsl_complex z){ R r=nondet_R(); __CPROVER_assume(r>=0 && r*r==z.dat[0]*z.dat[0]+z.dat[1]*z.dat[1]); return r; }
+static void gsl_matrix_complex_memcpy(gsl_matrix_complex* d, const gsl_matrix_complex* s){ for(int q=0;q<2*N*N;q++) d->data[q]=s->data[q]; }
+static R one_normest_matrix_power(const gsl_matrix_complex* Mx, unsigned p){ n_est++; est_ok = (p==2*MM+1); abs_ok=1;
+  for(int i=0;i<N;i++) for(int j=0;j<N;j++){ gsl_complex z=gsl_matrix_complex_get(Mx,i,j); R ar=g_absin[2*(i*N+j)], ai=g_absin[2*(i*N+j)+1];
+    abs_ok = abs_ok && z.dat[1]==0 && z.dat[0]>=0 && z.dat[0]*z.dat[0]==ar*ar+ai*ai; }
+  return g_est; }
+static R exact_1_norm(const gsl_matrix_complex* Mx){ n_nrm++; nrm_ok = (Mx==g_A); return g_nrm; }
+static R sq_log2(R x){ n_l2++; g_l2arg=x; return g_l2val; }
+static int sq_iceil(R x){ n_ceil++; g_ceilarg=x; return g_ceilval; }
+static int sq_imax(int a,int b){ return a>b?a:b; }
+static int ell(const gsl_matrix_complex* A, unsigned int m){
+  R habs[2*N*N]; struct holder absA_={{N,N,N,habs}};
+//@BODY file=src/MatrixExp.cpp sig=/\bint\s+ell\s*\(/ rules=common,pade,ellrules
+}
+int main(void){
+  R dA[2*N*N]; for(int q=0;q<2*N*N;q++){ dA[q]=nondet_R(); g_absin[q]=dA[q]; } gsl_matrix_complex A={N,N,N,dA}; g_A=&A;
+  g_ch=nondet_R(); g_fa=nondet_R(); g_p53=nondet_R(); g_est=nondet_R(); g_nrm=nondet_R(); g_l2val=nondet_R(); g_ceilval=CEILV;
+  __CPROVER_assume(g_ch>0 && g_fa>0 && g_p53>0 && g_est>=0 && g_nrm>0);
+  int r=ell(&A,MM);
+  __CPROVER_assert(n_est==1 && est_ok && abs_ok, "C07: ell estimates the 1-norm of |A|^(2m+1), |A| the entry-wise absolute value of A");
+  if(g_est==0){ __CPROVER_assert(r==0, "C07: ell is 0 when the estimate vanishes"); }
+  else {
+    __CPROVER_assert(n_ch==1 && ch_ok && n_fa==1 && fa_ok && n_pw==1 && pw_ok && n_nrm==1 && nrm_ok, "C07: 1/|c_{2m+1}| = C(2p,p)*(2p+1)! with p=2m+1; unit roundoff 2^-53; exact 1-norm of A itself");
+    __CPROVER_assert(n_l2==1 && g_l2arg*(g_nrm*(g_ch*g_fa))*g_p53==g_est, "C07: log2 is taken of alpha/u, alpha = est/(||A||_1 * C(2p,p)(2p+1)!)");
+    __CPROVER_assert(n_ceil==1 && g_ceilarg*(2*MM)==g_l2val && r==(CEILV>0?CEILV:0), "C07: ell = max(ceil(log2(alpha/u)/(2m)), 0)");
+  }
+  return 0;
+}
+#endif
